@@ -546,7 +546,12 @@ func c08LiteralRoundTrip(cx *explore.Ctx, q run.Query, cons schema.Constraint, c
 		f, d := hclsyntax.ParseConfig([]byte(text), cx.Case.File, hcl.InitialPos)
 		cx.L.Count("literal_round_trips", 1)
 		if d.HasErrors() && !origClean {
-			continue // the file was broken before: the remaining errors cannot be pinned on the candidate
+			// the file was broken before: the remaining errors can only be pinned on the candidate if a plain
+			// `null` at the same place would have left a sound file (the value was merely missing)
+			probe := string(cx.Src[:er.Start.Byte]) + "null" + string(cx.Src[er.End.Byte:])
+			if _, pd := hclsyntax.ParseConfig([]byte(probe), cx.Case.File, hcl.InitialPos); pd.HasErrors() {
+				continue
+			}
 		}
 		if d.HasErrors() {
 			add("literal:accepted-text-does-not-parse", "literal", fmt.Sprintf("accepting %q (plain text %q) leaves a file that does not parse: %s", cd.Label, cd.TextEdit.NewText, d.Error()))
